@@ -1005,6 +1005,8 @@ std::string sqf::parser::preprocessor::impl_default::instance::parse_file(::sqf:
             }
             if (current_file_scope().conditions.empty() || current_file_scope().conditions.back().allow_write)
                 sstream << c;
+            else if (c == '\n')
+                sstream << c; // a skipped line still is a line of the source
             continue;
         }
         // line ends that were joined by a backslash are made up for after the end of the joined line
